@@ -307,7 +307,14 @@ func c11ServerLeg(r *ev.Run) {
 	// one exchange: cookie + np placeholders; returns the fresh cookies of the reply
 	exchange := func(id string, cookie []byte, np int) ([][]byte, bool) {
 		hdr := peer.NTPRequest(peer.UniqueTime64())
-		uid := randBytes(rng, 32)
+		ul := 32
+		if np >= 7 && rng.IntN(2) == 0 { // longer unique identifiers leave less room for cookies
+			ul = []int{33, 64, 100, 119, 120, 124, 128, 132, 133, 200, 247, 248, 256, 260, 261, 300, 376, 388, 500}[rng.IntN(19)]
+		}
+		uid := randBytes(rng, ul)
+		for np > 0 && 48+4+ul+3+(np+1)*132+40 > 2000 { // stay within the listener's 2048-byte receive buffer
+			np--
+		}
 		pkt := peer.NTSRequest(hdr, uid, cookie, np, d.C2sKey)
 		if err := uc.Send(dst, pkt); err != nil {
 			return nil, false
@@ -315,7 +322,7 @@ func c11ServerLeg(r *ev.Run) {
 		tx := binary.BigEndian.Uint64(hdr[40:])
 		_, hit := uc.ReadUntil(3*time.Second, func(dg peer.Datagram) bool { return peer.NTPOrigin(dg.Data) == tx })
 		r.Eval(1)
-		w := map[string]any{"placeholders": np, "request_length": len(pkt)}
+		w := map[string]any{"placeholders": np, "request_length": len(pkt), "unique_id_length": ul}
 		if hit == nil {
 			if !tgt.Alive() {
 				first, frame := tgt.ExitInfo()
@@ -338,7 +345,7 @@ func c11ServerLeg(r *ev.Run) {
 			return nil, false
 		}
 		want := 1 + np
-		fit := (nts.MaxPacketLen - 48 - 36 - 4 - 4 - 16 - 16) / (4 + (c11CookieLen+3)&^3)
+		fit := (nts.MaxPacketLen - 48 - (4 + (ul+3)&^3) - 4 - 4 - 16 - 16) / (4 + (c11CookieLen+3)&^3)
 		if len(cookies) != min(want, fit) && len(cookies) != want {
 			w["cookies"], w["wanted"], w["fit"] = len(cookies), want, fit
 			r.Violation(fmt.Sprintf("ntp-ip-listener|wrong-reply:number of fresh cookies is neither the number requested nor as many as fit|placeholders=%d", np), id, w)
@@ -362,8 +369,8 @@ func c11ServerLeg(r *ev.Run) {
 		c := pool[k]
 		pool = append(pool[:k], pool[k+1:]...)
 		np := i % 8
-		if i%29 == 28 {
-			np = 8 + rng.IntN(6) // more fields than a conforming client sends: as many cookies as fit
+		if i%5 == 4 {
+			np = 7 + rng.IntN(7) // up to more fields than a conforming client sends: as many cookies as fit
 		}
 		fresh, ok := exchange(id, c, np)
 		if !ok {
